@@ -37,8 +37,9 @@ def avkChain (c p : Cert) : Bool :=
 def paramsChain (c p : Cert) : Bool :=
   if p.epoch = c.epoch then p.params = c.params else p.nextParams = some c.params
 
-/-- `verify_certificate` of the common verifier (code as it is: `has_gap_with` = abs_diff > 1) -/
-def verifyCertificate (retr : Nat → Option Cert) (c : Cert) : Except Err (Option Cert) :=
+/-- `verify_certificate` of the common verifier BEFORE the `fix:` commit (`has_gap_with` = abs_diff > 1
+only, so a link to the following epoch passed); kept to document the fixed finding -/
+def verifyCertificateOld (retr : Nat → Option Cert) (c : Cert) : Except Err (Option Cert) :=
   if c.isGenesis then
     if !c.contentHashOk then .error .hash
     else if !c.signedMsgOk then .error .signedMsg
@@ -53,6 +54,36 @@ def verifyCertificate (retr : Nat → Option Cert) (c : Cert) : Except Err (Opti
       | .error e => .error e
       | .ok () =>
         if absDiff c.epoch p.epoch > 1 then .error .missingEpoch
+        else if p.hash ≠ c.prevHash then .error .prevHash
+        else if !avkChain c p then .error .avk
+        else if !paramsChain c p then .error .params
+        else .ok (some p)
+
+def verifyChainOld (retr : Nat → Option Cert) : Nat → Cert → Except Err Unit
+  | 0, _ => .error .fuel
+  | fuel + 1, c =>
+    match verifyCertificateOld retr c with
+    | .error e => .error e
+    | .ok none => .ok ()
+    | .ok (some p) => verifyChainOld retr fuel p
+
+/-- `verify_certificate` of the common verifier (code as it is: the previous certificate must be of
+the same or of the immediately preceding epoch) -/
+def verifyCertificate (retr : Nat → Option Cert) (c : Cert) : Except Err (Option Cert) :=
+  if c.isGenesis then
+    if !c.contentHashOk then .error .hash
+    else if !c.signedMsgOk then .error .signedMsg
+    else if !c.genesisSigOk then .error .genesisSig
+    else if !c.epochPartOk then .error .epochPart
+    else .ok none
+  else
+    match retr c.prevHash with
+    | none => .error .notFound
+    | some p =>
+      match integrityStd c with
+      | .error e => .error e
+      | .ok () =>
+        if absDiff c.epoch p.epoch > 1 ∨ p.epoch > c.epoch then .error .missingEpoch
         else if p.hash ≠ c.prevHash then .error .prevHash
         else if !avkChain c p then .error .avk
         else if !paramsChain c p then .error .params
@@ -101,7 +132,7 @@ theorem verifyCertificate_ok_none {retr c} (h : verifyCertificate retr c = .ok n
         simp at h
 
 theorem verifyCertificate_ok_some {retr c p} (h : verifyCertificate retr c = .ok (some p)) :
-    c.isGenesis = false ∧ Integrity c ∧ c.multiSigOk = true ∧ p.hash = c.prevHash ∧ LinkCode c p := by
+    c.isGenesis = false ∧ Integrity c ∧ c.multiSigOk = true ∧ p.hash = c.prevHash ∧ LinkSpec c p := by
   unfold verifyCertificate at h
   split at h
   · repeat (split at h; · simp at h)
@@ -132,12 +163,17 @@ theorem verifyCertificate_ok_some {retr c p} (h : verifyCertificate retr c = .ok
         · left; simp [he] at ha' hp'; exact ⟨he, ha', hp'⟩
         · simp [he] at ha' hp'
           right
-          split at hd
-          · right; exact ⟨by omega, ha', hp'⟩
-          · left; exact ⟨by omega, ha', hp'⟩
+          have hd' : ¬ (absDiff c.epoch q.epoch > 1) ∧ ¬ (q.epoch > c.epoch) := by
+            constructor
+            · intro hx; exact hd (Or.inl hx)
+            · intro hx; exact hd (Or.inr hx)
+          unfold absDiff at hd'
+          split at hd'
+          · exact absurd (by omega : q.epoch = c.epoch) he
+          · exact ⟨by omega, ha', hp'⟩
 
 theorem verifyChain_sound (retr : Nat → Option Cert) :
-    ∀ fuel c, verifyChain retr fuel c = .ok () → Valid LinkCode c := by
+    ∀ fuel c, verifyChain retr fuel c = .ok () → Valid LinkSpec c := by
   intro fuel
   induction fuel with
   | zero => intro c h; simp [verifyChain] at h
@@ -167,11 +203,12 @@ def later : Cert :=
 def earlier : Cert := { later with hash := 300, prevHash := 200, epoch := 1 }
 def retr0 : Nat → Option Cert := fun h => if h = 100 then some gen else if h = 200 then some later else none
 
+/-- FIXED FINDING: the old verifier accepted a link to the following epoch; the current one rejects it -/
 theorem forward_link_counterexample :
-    verifyChain retr0 5 earlier = .ok () ∧ ¬ LinkSpec earlier later := by
-  constructor
-  · rfl
-  · unfold LinkSpec earlier later; simp
+    verifyChainOld retr0 5 earlier = .ok () ∧ ¬ LinkSpec earlier later ∧
+    verifyChain retr0 5 earlier = .error .missingEpoch := by
+  refine ⟨rfl, ?_, rfl⟩
+  unfold LinkSpec earlier later; simp
 
 #print axioms verifyChain_sound
 end Chain
